@@ -489,6 +489,8 @@ ada_really_inline bool url_aggregator::parse_host(std::string_view input) {
   if (input.empty()) {
     return is_valid = false;
   }  // technically unnecessary.
+  // The host is being replaced: its kind is decided again below.
+  host_type = url_host_type::DEFAULT;
   // If input starts with U+005B ([), then:
   if (input[0] == '[') {
     // If input does not end with U+005D (]), validation error, return failure.
